@@ -76,7 +76,19 @@ def cli_case(item, acc):
     from props import c11
     name, label, opts = item
     case = {'layer': 'cli', 'input': name, 'label': label, 'options': list(opts)}
-    atoms = [dict(a) for a in c11.load_atoms(name) if a['element'] != 'H']
+    atoms = [dict(a) for a in c11.load_atoms(name.split('~')[0]) if a['element'] != 'H']
+    if name.endswith('~icode'):
+        # residues numbered 1 2 3 3A 4 ...: the fourth residue shares its number (and name) with the third, the insertion code
+        # alone tells them apart; they are still two residues of the chain
+        order = []
+        for atom in atoms:
+            if atom['res'] not in order:
+                order.append(atom['res'])
+        for atom in atoms:
+            k = order.index(atom['res'])
+            resid, icode = (k + 1, ' ') if k < 3 else ((3, 'A') if k == 3 else (k, ' '))
+            atom['line'] = atom['line'][:22] + '%4d%s' % (resid, icode) + atom['line'][27:]
+            atom['res'] = (atom['res'][0], resid, icode)
     base = tempfile.mkdtemp(prefix='verif_c15cli_', dir='/dev/shm' if os.path.isdir('/dev/shm') else None)
     try:
         with open(os.path.join(base, 'in.pdb'), 'w') as handle:
@@ -110,10 +122,13 @@ def cli_case(item, acc):
                           'pos': (float(rec['x']) / 10, float(rec['y']) / 10, float(rec['z']) / 10)})
         # residue graph of this molecule: residues (chain, resid) in order; consecutive residues of one chain are bonded
         residues = []
+        last = None
         for bead in beads:
-            key = (bead['chain'], bead['resid'])
-            if key not in residues:
-                residues.append(key)
+            # a new residue starts at every backbone particle (residues that share a number through insertion codes stay apart)
+            if bead['name'] == 'BB' or last is None:
+                last = (bead['chain'], bead['resid'], len(residues))
+                residues.append(last)
+            bead['res'] = last
         graph_dist = {}
         for a, b in itertools.combinations(range(len(residues)), 2):
             graph_dist[(a, b)] = (b - a) if residues[a][0] == residues[b][0] else None      # other chain: not connected
@@ -130,7 +145,7 @@ def cli_case(item, acc):
             regions = [tuple(int(x) for x in part.split(':')) for part in v['eunit'].split(',')]
         for i, j in itertools.combinations(selected, 2):
             bi, bj = beads[i], beads[j]
-            ri, rj = residues.index((bi['chain'], bi['resid'])), residues.index((bj['chain'], bj['resid']))
+            ri, rj = residues.index(bi['res']), residues.index(bj['res'])
             d = math.dist(bi['pos'], bj['pos'])
             if regions is not None:
                 same_domain = any(lo <= bi['resid'] <= hi and lo <= bj['resid'] <= hi for lo, hi in regions)
@@ -176,6 +191,8 @@ def items(tier):
         yield 'bta3-12', label, opts
     for label, opts in TWO_CHAIN.items():
         yield 'bta-two-chains-6', label, opts
+    for label, opts in (('icode-ermd1', ['-ermd', '1', '-eu', '1.5']), ('icode-default', ['-eu', '1.5']), ('icode-ermd0', ['-ermd', '0', '-eu', '1.5'])):
+        yield 'ala5~icode', label, opts
     if tier != 'quick':
         for (la, oa), (lb, ob) in itertools.combinations(list(OPTIONS.items())[1:], 2):
             if not set(oa[::2]) & set(ob[::2]):
